@@ -236,6 +236,11 @@ func CheckC04(c Case, r Result) (*Violation, []string, bool) {
 	if v := provenance(c, r, "C04"); v != nil {
 		return v, classes, false
 	}
+	// ... and are not lost: no context ends by itself in these programs and no connection fails, so
+	// a call that was not cancelled by the harness fails only with errors its handlers returned
+	if v := noForeignFailure(c, r, "C04"); v != nil {
+		return v, classes, false
+	}
 	special := false
 	for _, op := range c.Ops {
 		for _, b := range op.Behav {
@@ -523,4 +528,64 @@ func CheckC05(c Case, r Result) (*Violation, []string, bool) {
 		classes = append(classes, "hung-call-present")
 	}
 	return nil, classes, overlap || late
+}
+
+// noForeignFailure: in a program without context ends, stops, Close and injected faults, a call
+// that the harness did not cancel before it returned reports only errors that handlers returned
+// (handler errors are stamped with token and server).
+func noForeignFailure(c Case, r Result, prop string) *Violation {
+	for _, op := range c.Ops {
+		switch op.Kind {
+		case "stop", "start", "close", "flood":
+			return nil
+		case "call":
+			if op.CancelUs > 0 || op.Call.Ctx == "deadline" || op.Call.Ctx == "precancelled" || scen.IsUnhandled(op.Call.Kind) {
+				return nil
+			}
+			for _, b := range op.Behav {
+				if b.ErrCode > 0 && !b.StampErr || b.PlainErr {
+					return nil
+				}
+			}
+		}
+	}
+	for _, m := range c.Mgrs {
+		if len(m.FailSendAt) > 0 || m.MaxSendBytes > 0 {
+			return nil
+		}
+	}
+	if len(c.Down) > 0 {
+		return nil
+	}
+	cancelled := map[uint64]bool{}
+	callOf := map[uint64]CallInfo{}
+	for _, ci := range r.Calls {
+		callOf[ci.Token] = ci
+	}
+	for _, e := range r.Events {
+		if e.Kind == "cancel" {
+			cancelled[e.Token] = true
+		}
+		if e.Kind != "return" || e.ErrText == "" || cancelled[e.Token] {
+			continue
+		}
+		ci, ok := callOf[e.Token]
+		if !ok {
+			continue
+		}
+		var texts []string
+		if ci.Kind == "RPC" {
+			texts = []string{e.ErrText}
+		} else {
+			for _, m := range nodeErrRe.FindAllStringSubmatch(e.ErrText, -1) {
+				texts = append(texts, m[2])
+			}
+		}
+		for _, x := range texts {
+			if stampRe.FindStringSubmatch(x) == nil {
+				return viol(prop+"/reply-lost/"+kindFamily(ci.Kind), "call %d (%s) failed with an error that no handler returned although no context ended and no connection failed: %s", ci.Idx, ci.Kind, x)
+			}
+		}
+	}
+	return nil
 }
